@@ -1,4 +1,5 @@
 import ParryModel.Vec
+import ParryModel.C12.Model
 /-!
 # C12 model: the 3-D quickhull `transformation::convex_hull3` (`try_convex_hull`)
 
@@ -7,8 +8,8 @@ Literal transliteration of `convex_hull3/{convex_hull,initial_mesh,triangle_face
 `Triangle::is_affinely_dependent`, `utils::center`, `utils::remove_unused_points`.
 
 The only part NOT transliterated is nalgebra's `symmetric_eigen` of the covariance matrix: its result (three eigenvector
-columns, three eigenvalues) is an OBSERVED input of the model.  Only the full-dimensional branch (`dimension == 3`) of
-`try_get_initial_mesh` is modelled; the planar / linear / point branches return `Res.lowdim`.
+columns, three eigenvalues) is an OBSERVED input of the model.  The full-dimensional branch (`dimension == 3`) of `try_get_initial_mesh` is `initialMesh`; the planar / linear / point branches
+(`InitialMesh::ResultMesh`) are `lowDimMesh` (the planar one goes through the modelled 2-D quickhull `convexHull2Idx`).
 
 `furthest_point` / `furthest_distance` of `TriangleFacet` are write-only in the Rust code (never read: the main loop recomputes the
 support point) and are left out.  Out-of-range reads use a default (`getD`); `Theorems8` proves they are never out of range.
@@ -410,6 +411,39 @@ def removeUnused (pts : Array (V3 K)) (idx : Array T3) : Array (V3 K) × Array T
 /-- the facets of the final state as an index buffer -/
 def validTriangles (ts : Array (Facet K)) : Array T3 := (ts.filter (·.valid)).map (·.pts)
 
+/-- `utils::point_cloud_support_point_id` -/
+def cloudSupportId (dir : V3 K) (pts : Array (V3 K)) : Nat :=
+  ((List.range pts.size).drop 1).foldl (fun (acc : Nat × K) i =>
+    let d := (pAt pts i).dot dir
+    if acc.2 < d then (i, d) else acc) (0, (pAt pts 0).dot dir) |>.1
+
+/-- the branches `dimension` = 0, 1, 2 of `try_get_initial_mesh` (`InitialMesh::ResultMesh`: returned as is, without
+`remove_unused_points`): a point, a segment, or the 2-D hull of the cloud projected on the two principal axes, triangulated as a
+two-sided fan. `none` = the branch `dimension == 3` (see `initialMesh`). -/
+def lowDimMesh (negMax : K) (orig : Array (V3 K)) (evec : List (V3 K)) (eval : List K) : Option (Res (Array (V3 K) × Array T3)) :=
+  let npts := normalizeCloud orig
+  let pairs := sortPairs (evec.zip eval)
+  match dimension (pairs.map (·.2)) with
+  | 0 => some (.ok (#[pAt orig 0], #[⟨0, 0, 0⟩, ⟨0, 0, 0⟩]))
+  | 1 =>
+    let dir := (pairs.headD (V3.zero, 0)).1
+    let a := pAt orig (cloudSupportId dir orig)
+    let b := pAt orig (cloudSupportId dir.neg orig)
+    some (.ok (#[a, b], #[⟨0, 1, 0⟩, ⟨1, 0, 0⟩]))
+  | 2 =>
+    let axis1 := (pairs.headD (V3.zero, 0)).1
+    let axis2 := ((pairs.drop 1).headD (V3.zero, 0)).1
+    let sub : Array (V2 K) := npts.map fun p => ⟨p.dot axis1, p.dot axis2⟩
+    match Model.convexHull2Idx negMax eps100 sub with
+    | none => some .panic
+    | some idx =>
+      let n := idx.length
+      let coords := (idx.map (pAt orig)).toArray
+      let top := ((List.range (n - 1)).drop 1).map fun id => (⟨0, id, id + 1⟩ : T3)
+      let bot := (List.range (n - 2)).map fun id => (⟨n - 1, id + 1, id⟩ : T3)
+      some (.ok (coords, (top ++ bot).toArray))
+  | _ => none
+
 /-- `try_convex_hull` for `points.len() >= 3`, given the observed eigen-decomposition -/
 def tryConvexHull (negMax : K) (orig : Array (V3 K)) (evec : List (V3 K)) (eval : List K) : Res (Array (V3 K) × Array T3) :=
   match initialMesh negMax orig evec eval with
@@ -417,6 +451,7 @@ def tryConvexHull (negMax : K) (orig : Array (V3 K)) (evec : List (V3 K)) (eval 
     (match mainLoop negMax ini.npts (16 * orig.size * orig.size + 64) 0 ini.ts ini.und with
      | .ok ts => .ok (removeUnused orig (validTriangles ts))
      | .err e => .err e | .panic => .panic | .hang => .hang | .lowdim => .lowdim)
-  | .err e => .err e | .panic => .panic | .hang => .hang | .lowdim => .lowdim
+  | .err e => .err e | .panic => .panic | .hang => .hang
+  | .lowdim => (lowDimMesh negMax orig evec eval).getD .lowdim
 
 end Model.H3
